@@ -3811,8 +3811,13 @@ static Value eval_expression(ASTNode *expr, Environment *env) {
         case AST_FLOAT:
             return create_float(expr->as.float_val);
 
-        case AST_STRING:
-            return create_string(expr->as.string_val);
+        case AST_STRING: {
+            /* the literal's escapes denote characters, as in the compiled program */
+            char *decoded = string_literal_value(expr->as.string_val);
+            Value str = create_string(decoded ? decoded : expr->as.string_val);
+            free(decoded);
+            return str;
+        }
 
         case AST_BOOL:
             return create_bool(expr->as.bool_val);
